@@ -34,7 +34,7 @@ MIN_EVENTS = {
     'quick': {'oracle.sheet-roundtrip': 3000, 'oracle.node-roundtrip': 14000, 'oracle.shipped': 45, 'oracle.edited': 1200},
     'thorough': {'oracle.sheet-roundtrip': 60000, 'oracle.node-roundtrip': 300000, 'oracle.shipped': 45, 'oracle.edited': 24000},
 }
-HOSTILE_CLASSES = ['string', 'string-backslash', 'string-newline', 'url', 'url-backslash', 'url-control', 'comment', 'ident', 'nonascii']
+HOSTILE_CLASSES = ['string', 'string-backslash', 'string-newline', 'url', 'url-backslash', 'url-control', 'comment', 'ident', 'nonascii', 'unknown-keyword']
 
 
 def norm(x):
@@ -74,6 +74,7 @@ def content_features(stmts, hc):
             if it[0] == 'comment':
                 if '\n' in it[1]:
                     feats.add('comment.multiline-in-block')
+                comment(it[1])
             else:
                 ident(it[1])
                 for c in it[2]:
@@ -99,12 +100,20 @@ def content_features(stmts, hc):
                 elif len(q) == 2 and q[0] not in ('pc', 'pe', 'pcf') and isinstance(q[1], str) and q[1] != '*':
                     ident(q[1])
 
+    def comment(t):
+        import re
+
+        # a backslash directly in front of a character the sheet's encoding may have to write as an escape
+        if re.search(r'\\[^\x00-\x7f]', t):
+            feats.add('comment.backslash-before-nonascii')
+
     def walk(sts, nested=False):
         for st in sts:
             k = st[0]
             if k == 'comment':
                 if nested and '\n' in st[1]:
                     feats.add('comment.multiline-in-block')
+                comment(st[1])
             elif k == 'style':
                 for s in st[1]:
                     sel(s)
@@ -120,6 +129,8 @@ def content_features(stmts, hc):
             elif k == 'import':
                 text(st[1], 'url')
             elif k == 'unknown':
+                if st[1].lower() == '@charset':
+                    feats.add('unknown.charset-in-other-letter-case')
                 for c in st[2]:
                     comp(c)
 
